@@ -302,6 +302,7 @@ func runC17(c *Ctx) {
 }
 
 func runC19(c *Ctx) {
+	idempotentStallRule(c, "idempotent-stall", func(pp string) bool { return strings.HasPrefix(pp, ModPath+"/mem/cache") }, 10)
 	p := c.P
 	dom := []int{0, 1, 2}
 	lruF := c.field("anchors", "mem/cache", "SetState", "LRUOrder")
@@ -638,4 +639,27 @@ func victimUsesGuarded(p *Program, fn *ssa.Function, idx map[ssa.Value]bool, ski
 		}
 	}
 	return uses, bad
+}
+
+// idempotentStallRule: in the selected packages, a stage that gives up because a
+// port or buffer cannot accept ("if !X.CanSend() { return false }") is retried on
+// the next tick; a counter update or a queue operation that executes before that
+// test is repeated on every retry.
+func idempotentStallRule(c *Ctx, rule string, pred func(string) bool, floor int) {
+	p := c.P
+	n := 0
+	for _, fn := range p.SrcFuncs(pred) {
+		sites, bad := stallEffects(fn)
+		if sites == 0 {
+			continue
+		}
+		n += sites
+		why := ""
+		for _, b := range bad {
+			why += "it " + b.what + " at " + p.Rel(b.eff.Pos()) + " before the test at " + p.Rel(b.guard.Pos()) + "; "
+		}
+		c.Check(len(bad) == 0, rule, SSAFuncKey(fn), fn.Pos(), "nothing non-idempotent happens before a stall test ("+itoa(sites)+" tests)",
+			"the stage stalls (returns without progress, to be retried next tick) when its output cannot accept, but "+why+"each retry repeats that effect (a reader count driven negative, an item taken twice, …)")
+	}
+	c.Check(n >= floor, rule, "instances", 0, "stall tests found ("+itoa(n)+")", "only "+itoa(n)+" stall tests found (expected at least "+itoa(floor)+")")
 }
